@@ -236,7 +236,10 @@ DoReconn ==
 DoMarker ==
     /\ Ev.ev = "marker"
     /\ LET n == Cardinality({u \in DOMAIN dbs[Ev.db][Ev.table] : dbs[Ev.db][Ev.table][u].name = Ev.name})
-       IN  Chk(IF Ev.outcome = "results" THEN n = 1 ELSE n <= 1, "C16",
+       IN  IF Ev.outcome = "stuck"
+           THEN Report("C16", "a Transact call in flight when the connection was lost has not returned long after its context expired (the client is wedged)", [marker |-> Ev.name])
+           ELSE
+           Chk(IF Ev.outcome = "results" THEN n = 1 ELSE n <= 1, "C16",
                "a Transact call that returned results was not applied exactly once (or one that returned an error more than once)",
                [marker |-> Ev.name, outcome |-> Ev.outcome, applied |-> n])
     /\ UNCHANGED <<dbs, mons, cmons>>
